@@ -45,7 +45,7 @@ def Registry.byCountry (R : Registry) (cc : Str) : Option (List BankEntry) :=
 structure BicPattern where
   head : List Item
   tail : Option (List Item)
-  deriving Repr, Inhabited
+  deriving DecidableEq, Repr, Inhabited
 
 /-- `regex.fullmatch(s)` for `head(?:tail)?`. -/
 def BicPattern.fullmatch (U : Unicode) (p : BicPattern) (s : Str) : Bool :=
